@@ -52,6 +52,13 @@ def workload(rng, tier, driver):
                 c.session(full.lines[a:b])
     take("masked-aead", masked, 200 if q else 400)
 
+    def prng(c):
+        import p_c15
+        s = {"ops": collections.Counter(), "fetch": [], "storage": collections.Counter()}
+        for _ in range(40 if q else 150):
+            c.session(p_c15.session(rng, "quick", s))
+    take("prng", prng, 40 if q else 150)
+
     def cpp(c):
         for l in p_c17.gen_cpx(rng, "quick")[0]:
             c.one(l)
@@ -153,9 +160,26 @@ def run(res, tier, seed, replay=None):
             if rc_i != 0 and nd == 0:
                 res.violation("harness-crash@" + name, "the workload aborted in configuration %s: %s" % (name, err_i[-1500:]),
                               {"config": name, "stderr": err_i[-4000:]}, no_input=True)
+            # configuration-dependent lines (share count and the width of the random draws are in the operation): masked key,
+            # masked state and masked permutation histories generated for THIS configuration, compared with the model
+            if not replay:
+                import p_c10
+                ks, ds, ms = shares or (4, 2, 4)
+                st2 = {"ops": collections.Counter(), "valid": [], "mp_steps": collections.Counter()}
+                full = diffrun.Corr()
+                p_c10.gen_cases(random.Random(rng.getrandbits(64)), "quick", full, st2, ks, ms, "w32" if cfg == "c32" else "w64")
+                c2 = diffrun.Corr()
+                for (a2, b2) in full.sessions:
+                    if full.lines[a2].split()[0] in ("MK", "MR", "MP"):
+                        c2.session(full.lines[a2:b2], "masked-objects")
+                st = diffrun.compare(res, c2, driver, got[1], name)
+                nd += st["disagreements"]
+                extra_sessions = st["sessions"]
+            else:
+                extra_sessions = 0
             dg = hashlib.sha256("\n".join(out_i).encode()).hexdigest()
             digests[name] = dg
-            per.append({"config": name, "sessions": len(corr.sessions), "lines": len(corr.lines), "disagreements": nd, "digest": dg[:16], "exit": rc_i,
+            per.append({"config": name, "sessions": len(corr.sessions), "lines": len(corr.lines), "disagreements": nd, "digest": dg[:16], "exit": rc_i, "masked_object_sessions": extra_sessions,
                         "stderr_tail": err_i[-200:] if err_i else ""})
             # each build is removed as soon as it has been run: disk is limited
             import shutil
